@@ -38,23 +38,23 @@ Proof. intros a v. reflexivity. Qed.
 Lemma aeq_upd : forall a a' v b, aeq a a' -> aeq (upd a v b) (upd a' v b).
 Proof. intros a a' v b E x. unfold upd. destruct (Nat.eqb x v); [reflexivity | apply E]. Qed.
 
-Lemma upd_comm : forall a v w b b', v <> w -> aeq (upd (upd a v b) w b') (upd (upd a w b') v b).
+Lemma aupd_comm : forall a v w b b', v <> w -> aeq (upd (upd a v b) w b') (upd (upd a w b') v b).
 Proof.
   intros a v w b b' Hne x. unfold upd.
   destruct (Nat.eqb_spec x w) as [Ew|Hw]; destruct (Nat.eqb_spec x v) as [Ev|Hv]; try reflexivity.
   subst. contradiction.
 Qed.
 
-Lemma upd_upd : forall a v b b', aeq (upd (upd a v b) v b') (upd a v b').
+Lemma aupd_upd : forall a v b b', aeq (upd (upd a v b) v b') (upd a v b').
 Proof. intros a v b b' x. unfold upd. destruct (Nat.eqb x v); reflexivity. Qed.
 
-Lemma upd_self : forall a v, aeq (upd a v (a v)) a.
+Lemma aupd_self : forall a v, aeq (upd a v (a v)) a.
 Proof. intros a v x. unfold upd. destruct (Nat.eqb_spec x v) as [->|]; reflexivity. Qed.
 
-Lemma upd_at : forall a v b, upd a v b v = b.
+Lemma aupd_at : forall a v b, upd a v b v = b.
 Proof. intros a v b. unfold upd. rewrite Nat.eqb_refl. reflexivity. Qed.
 
-Lemma upd_other : forall a v b x, x <> v -> upd a v b x = a x.
+Lemma aupd_other : forall a v b x, x <> v -> upd a v b x = a x.
 Proof. intros a v b x Hne. unfold upd. destruct (Nat.eqb_spec x v); [contradiction | reflexivity]. Qed.
 
 Lemma aext_cof : forall f v b, aext f -> aext (cof f v b).
@@ -113,8 +113,8 @@ Proof.
   rewrite !quant_cons.
   destruct (Nat.eq_dec v w) as [->|Hne]; [reflexivity|].
   rewrite M.
-  rewrite (G _ _ (upd_comm a v w true true Hne)), (G _ _ (upd_comm a v w true false Hne)),
-          (G _ _ (upd_comm a v w false true Hne)), (G _ _ (upd_comm a v w false false Hne)).
+  rewrite (G _ _ (aupd_comm a v w true true Hne)), (G _ _ (aupd_comm a v w true false Hne)),
+          (G _ _ (aupd_comm a v w false true Hne)), (G _ _ (aupd_comm a v w false false Hne)).
   reflexivity.
 Qed.
 
@@ -136,10 +136,10 @@ Proof.
   intros q vs f v b X. induction vs as [|w r IH]; intros Hin a; [destruct Hin|].
   pose proof (aext_quant q r f X) as G. rewrite !quant_cons.
   destruct (Nat.eq_dec w v) as [->|Hne].
-  - rewrite (G _ _ (upd_upd a v b true)), (G _ _ (upd_upd a v b false)). reflexivity.
+  - rewrite (G _ _ (aupd_upd a v b true)), (G _ _ (aupd_upd a v b false)). reflexivity.
   - destruct Hin as [E|Hin]; [contradiction|].
     assert (Hne' : v <> w) by congruence.
-    rewrite (G _ _ (upd_comm a v w b true Hne')), (G _ _ (upd_comm a v w b false Hne')).
+    rewrite (G _ _ (aupd_comm a v w b true Hne')), (G _ _ (aupd_comm a v w b false Hne')).
     rewrite !(IH Hin). reflexivity.
 Qed.
 
@@ -216,8 +216,8 @@ Proof.
   intros q vs f v X Hn. induction vs as [|w r IH]; [exact Hn|].
   intros a b. pose proof (aext_quant q r f X) as G. rewrite !quant_cons.
   destruct (Nat.eq_dec v w) as [->|Hne].
-  - rewrite (G _ _ (upd_upd a w b true)), (G _ _ (upd_upd a w b false)). reflexivity.
-  - rewrite (G _ _ (upd_comm a v w b true Hne)), (G _ _ (upd_comm a v w b false Hne)), !IH.
+  - rewrite (G _ _ (aupd_upd a w b true)), (G _ _ (aupd_upd a w b false)). reflexivity.
+  - rewrite (G _ _ (aupd_comm a v w b true Hne)), (G _ _ (aupd_comm a v w b false Hne)), !IH.
     reflexivity.
 Qed.
 
@@ -275,7 +275,7 @@ Qed.
 Lemma over_notin : forall lits a x, ~ In x (map fst lits) -> over lits a x = a x.
 Proof.
   induction lits as [|[v b] r IH]; intros a x Hn; [reflexivity|].
-  simpl in *. rewrite IH by tauto. apply upd_other. intros ->. tauto.
+  simpl in *. rewrite IH by tauto. apply aupd_other. intros ->. tauto.
 Qed.
 
 (** with every variable listed at most once: listed variables get the listed
@@ -286,9 +286,9 @@ Proof.
   induction lits as [|[v b] r IH]; intros a x Hnd; [reflexivity|].
   simpl in *. inversion Hnd as [|? ? Hv Hr]; subst.
   destruct (Nat.eqb_spec v x) as [->|Hne].
-  - rewrite over_notin by exact Hv. apply upd_at.
+  - rewrite over_notin by exact Hv. apply aupd_at.
   - rewrite IH by exact Hr. destruct (assoc_nat r x); [reflexivity|].
-    apply upd_other. congruence.
+    apply aupd_other. congruence.
 Qed.
 
 Lemma restrict_s_ext : forall lits f g, (forall a, f a = g a) ->
@@ -337,7 +337,7 @@ Proof.
   intros lits f v b X Hnd Hin a. rewrite !restrict_s_over. apply X. intros x.
   rewrite !over_spec by assumption.
   destruct (assoc_nat lits x) eqn:E; [reflexivity|].
-  apply upd_other. intros ->.
+  apply aupd_other. intros ->.
   clear - Hin E. induction lits as [|[w b'] r IH]; [destruct Hin|].
   simpl in *. destruct (Nat.eqb_spec w v); [discriminate|]. destruct Hin; [contradiction | auto].
 Qed.
@@ -420,7 +420,7 @@ Proof.
   intros sub f v X a. unfold subst_s, cof.
   set (a' := fun x => match assoc_nat sub x with Some g => g a | None => a x end).
   change (match assoc_nat sub v with Some g => g a | None => a v end) with (a' v).
-  destruct (a' v) eqn:E; apply X; intros x; symmetry; rewrite <- E; apply upd_self.
+  destruct (a' v) eqn:E; apply X; intros x; symmetry; rewrite <- E; apply aupd_self.
 Qed.
 
 (** swapping two variables is not the same as two successive single
